@@ -5,6 +5,7 @@
 //   drv_codec images   <file-with-hex-images> <quick|thorough>  -> IMG {json} per reference image (C02)
 //   drv_codec poison   <pattern>                 -> POI {json}: encodings of default-constructed objects built in
 //                                                   heap memory pre-filled with <pattern>
+#include <csignal>
 #include <set>
 #include <sstream>
 #include <sys/wait.h>
@@ -31,6 +32,14 @@ void * operator new(size_t n) {
 void operator delete(void * p) noexcept { free(p); }
 void operator delete(void * p, size_t) noexcept { free(p); }
 #endif
+
+static std::string g_case;
+static void files_alarm(int) {
+    printf("FILE {\"name\":\"files/hang/%s\",\"C\":0,\"level\":0,\"rp\":false,\"n\":1,\"delivered\":0,\"mismatched\":0,\"eofOk\":false,"
+           "\"hash\":\"0\",\"size\":0,\"first\":\"write or read session does not end\"}\n", g_case.c_str());
+    fflush(stdout);
+    _exit(0);
+}
 
 static const char * header_kind(ObjectHeaderBase * o) {
     if (dynamic_cast<ObjectHeader *>(o)) return "v1";
@@ -270,6 +279,29 @@ int main(int argc, char ** argv) {
                     if (sz.names.empty() && pl.first != "empty" && v >= 1) break;   // fixed-size type: shapes add nothing
                 }
                 if (false) break;
+            }
+            // deterministic sweep of API-version selectors (independent of the seed)
+            {
+                ObjectHeaderBase * probe = File::createObject((ObjectType) code);
+                refl::Locator lp;
+                refl::visit_dyn(probe, lp);
+                bool hasApi = false;
+                for (auto & L : lp.locs) if (L.name == "apiMajor") hasApi = true;
+                delete probe;
+                for (int api = 0; hasApi && api <= 4; api++) {
+                    std::mt19937_64 rng(code * 7919ull + (unsigned long) api);
+                    ObjectHeaderBase * o = File::createObject((ObjectType) code);
+                    refl::Sizer sz({3, 1});
+                    refl::visit_dyn(o, sz);
+                    refl::Randomizer rz(rng, false);
+                    refl::visit_dyn(o, rz);
+                    refl::Locator l;
+                    refl::visit_dyn(o, l);
+                    for (auto & L : l.locs) if (L.name == "apiMajor") { memset(L.p, 0, L.n); L.p[0] = (uint8_t) api; }
+                    FrameResult fr = frame_record(o, code, "api" + std::to_string(api), 0);
+                    printf("FRAME %s\n", fr.json.c_str());
+                    delete o;
+                }
             }
             fflush(stdout);
             _exit(0);
@@ -537,6 +569,7 @@ int main(int argc, char ** argv) {
         unsigned long seed = strtoul(argv[3], nullptr, 10);
         bool thorough = std::string(argv[4]) == "thorough";
         if (argc > 5) g_poison = atoi(argv[5]);
+        signal(SIGALRM, files_alarm);
         std::set<long> skip;
         if (const char * e = getenv("VERIF_SKIP_CODES")) {
             std::stringstream ss(e);
@@ -556,6 +589,8 @@ int main(int argc, char ** argv) {
                 for (int rp = 0; rp <= 1; rp++) {
                     if (!thorough && ((level + rp + (int) (C % 5)) % 2)) continue;
                     long nobj = C <= 17 ? 5 : (1 + (long) (rng() % 40));
+                    g_case = "C=" + std::to_string(C) + " level=" + std::to_string(level) + " rp=" + std::to_string(rp);
+                    alarm(90);          // a session that does not end is reported, not waited for
                     std::string fn = dir + "/f_" + std::to_string((long) getpid()) + "_" + std::to_string(idx++) + ".blf";
                     std::vector<std::string> want, wantCls;
                     {
